@@ -1487,6 +1487,10 @@ fn push_opt_u8(out: &mut Vec<u8>, value: Option<u8>) {
 fn rand_bytes<const N: usize>() -> [u8; N] {
     let mut rng = rand::rng();
     let mut bytes = [0u8; N];
+    #[cfg(feature = "verif")]
+    if crate::verif::rand_fill(&mut bytes) {
+        return bytes;
+    }
     rng.fill_bytes(&mut bytes);
     bytes
 }
